@@ -117,6 +117,28 @@ AVOID5 = {
  'C19': 'a dense-system fast path in Solver::get_jacobian',
  'C20': 'BulkVmEval::resize_slots',
 }
+AVOID6 = {
+ 'C01': 'the Output op of the interpreter bulk evaluators (fidget-core/src/vm/mod.rs)',
+ 'C02': 'an immediate-register cache in the x86_64 JIT point assembler',
+ 'C03': 'the branch-cut test of Interval::atan2',
+ 'C04': 'the register backups around calls in the x86_64 JIT point assembler',
+ 'C05': 'build_mul of the x86_64 JIT gradient assembler',
+ 'C06': 'the tile region handed to the interval evaluator in the 2D renderer (render_tile_recurse)',
+ 'C07': 'TileSizesRef::pixel_offset',
+ 'C08': 'QuadraticErrorSolver::add_intersection',
+ 'C09': 'Octree::check_done',
+ 'C10': 'the variable map kept by VmData::simplify',
+ 'C11': 'the NaN guard of Interval::exp',
+ 'C12': 'unary-chain peepholes in Context::op_unary',
+ 'C13': 'negation folding in Context::add / Context::mul',
+ 'C14': 'ShapeBulkEval::var_value',
+ 'C15': 'a peephole in the emission loop of Bytecode::new',
+ 'C16': 'the sine / cosine of the angle in impl From<Rotate> for Tree',
+ 'C17': 'impl FromDynamic for Vec3',
+ 'C18': 'the centre correction of View2::zoom / View3::zoom',
+ 'C19': 'an immediate-register cache in the x86_64 JIT gradient assembler',
+ 'C20': 'the lowering of min / max with an infinite immediate in the JIT',
+}
 for pid in (ids or props):
     p = props[pid]
     avoid = ''
@@ -145,6 +167,14 @@ for pid in (ids or props):
                  "Prefer a change that looks like a well-meant OPTIMISATION or clean-up: a fast path, a cache, an early exit, a skipped step believed redundant, a reused buffer, a tightened bound, a merged pair of branches, "
                  "a simplified formula - correct for the common case and wrong for a rare one (a particular combination of operand forms, values at a boundary, sizes, orders, nestings or call histories). "
                  "The existing tests must still pass, so the rare case has to lie beyond what they exercise.\n")
+    if 'seed7' in root:
+        avoid = (f"\nSix earlier experiments already used (1) {AVOID[pid]}, (2) {AVOID2[pid]}, (3) {AVOID3[pid]}, (4) {AVOID4[pid]}, (5) {AVOID5[pid]} and (6) {AVOID6[pid]}. Pick a mechanism different from all six, in a different function. "
+                 "The verification suite you are up against generates RANDOM programs, inputs, configurations and call histories and compares the library with reference models, so it finds anything that a few thousand random cases would hit. "
+                 "Aim at its blind spot: a change whose trigger is an EXACT COINCIDENCE that random generation is unlikely to produce by chance - two independently chosen values that must be bit-identical or related exactly "
+                 "(an operand equal to a particular constant, two constants equal to each other, a size equal to a multiple of another, an index landing exactly on a boundary, a value exactly representable / exactly at a rounding boundary), "
+                 "a particular structural coincidence in the expression (the same sub-expression in two particular positions, a particular chain of three specific operations, a particular register assignment), "
+                 "or a particular sequence of three or more specific calls. Before editing, list for yourself at least five candidate sites spread over different anchor files / mechanisms and choose the one with the narrowest natural trigger that still plausibly occurs in real use. "
+                 "The existing tests must still pass.\n")
     open(f'{root}/prompt_{pid}.txt', 'w').write(f"""You are helping to evaluate a verification suite for the Rust library mkeeter/fidget (implicit-surface math expressions compiled to tapes, evaluated by an interpreter VM or an x86_64 JIT, rendered or meshed). You do NOT see the verification suite. Your job is to write ONE realistic, subtle breaking change to the library.
 
 Your private scratch copy of the repository is the git worktree at {root}/{pid} (work ONLY there; never touch /repo or /verif; do not commit). The machine is offline: always pass --offline to cargo and set CARGO_TARGET_DIR={root}/{pid}/target for every cargo command.
